@@ -85,6 +85,12 @@ int main(void)
       matrix *m = rd_matrix(), *c; size_t key = rd_size();
       c = dup_matrix(m); MatrixSort(c, key); pr_matrix("sorted", c); DelMatrix(&c);
       c = dup_matrix(m); MatrixReverseSort(c, key); pr_matrix("rsorted", c); DelMatrix(&c);
+      { /* the key column as a vector: DVectorSort, and the median (sorts its argument) */
+        dvector *v; size_t i; double med;
+        NewDVector(&v, m->row); for(i = 0; i < m->row; i++) v->data[i] = m->data[i][key];
+        DVectorSort(v); pr_dvector("vsorted", v);
+        for(i = 0; i < m->row; i++) v->data[i] = m->data[i][key];
+        DVectorMedian(v, &med); pr_double("median", med); DelDVector(&v); }
       DelMatrix(&m);
     }
     else if(!strcmp(op, "vec")){
